@@ -16,6 +16,7 @@ import (
 func init() { register("C05", true, checkC05) }
 
 func checkC05(c *Ctx) {
+	e1CheckConstants(c, "C05-K8", []string{"dhcpv6.", "iana.StatusCode", "iana.Arch", "iana.HWType", "iana.EnterpriseID"}, 200)
 	r := c.R
 	r.Decides = append(r.Decides,
 		"K1 exact tiling: every decoder of dhcpv6/iana/rfc1035label returns a nil error only via (a) FinError() of a Lexer over its whole parameter, (b) an explicit len(p)==c guard, (c) wholesale use of the parameter, (d) delegation of the whole parameter or of the whole remainder to a decoder that itself satisfies K1, with its error propagated, or (e) a ledgered index-driven decoder (labels); reasoned exception: OptDHCPv4Msg delegates to dhcpv4.FromBytes (C04)",
@@ -23,7 +24,8 @@ func checkC05(c *Ctx) {
 		"K3 option TLV loop: for Has(4), two 16-bit reads, Consume(length), the parser's error returned, FinError after the loop",
 		"K4 header completeness: MessageFromBytes/RelayMessageFromBytes test the Lexer error after the last header read and before the options; FromBytes dispatches types 12 and 13 (exactly) to the relay decoder; the per-kind decoders reject the other kind",
 		"K5 error discipline: no error returned by an in-scope decode function is dropped inside the decode closure",
-		"K6 field values: the schema rows of C02-K2 (evaluated there)")
+		"K6 field values: the schema rows of C02-K2 (evaluated there)",
+		"K8 wire-enum constants equal the assigned numbers; K9 the 255-octet cap of the label decoder is a test on the length of the name being assembled (not on an offset into the option)")
 	r.NotDecided = append(r.NotDecided, "the converse direction (that every well-formed message is accepted): extra rejecting guards are listed, not judged", "per-option semantic rules not expressed as guards")
 	var decs []*ssa.Function
 	for f := range decodeEntries(c.P) {
@@ -37,6 +39,7 @@ func checkC05(c *Ctx) {
 	for _, f := range decs {
 		tilingCheck(c, "C05-K1", f, k1)
 	}
+	labelNameCap(c, "C05-K9")
 	r.Count("C05-K1-decoders", len(decs))
 	r.Expect("C05-K1-decoders", 45)
 	e2CheckLayouts(c, "C05-K6", func(name string, f *ssa.Function) bool {
